@@ -1,7 +1,7 @@
 #!/bin/sh
 # usage: tools/confirm_seed.sh <PID> <k>  : confirm a sub-agent's seeded change in a scratch worktree of /repo HEAD
 pid="$1"; k="$2"
-inbox=/verif/seeded/_inbox/$pid
+inbox=${INBOX:-/verif/seeded/_inbox}/$pid
 wt=/tmp/wt/confirm-$pid-$k
 log=$inbox/confirm$k.log
 rm -rf "$wt"; git -C /repo worktree add -q --detach "$wt" HEAD || exit 3
